@@ -12,9 +12,14 @@ through `MetaModel.new` (referred rows first) and by cloning the loaded instance
        and equals y's corresponding identifying value — checked on both link directions and through the public
        navigation API; every variant yields the same metamodel as the first one (classes, identifiers,
        associations as a multiset, multiset of rows per class, link relation on rows identified by their
-       INSERT statement), and the same per-class instance order whenever the permutation keeps the relative
-       order of the INSERTs of each class; the API and clone routes yield the same links (under the guards
-       of the statement: referred rows exist first and can be read, no cardinality-violating duplicates).
+       INSERT statement) — instance and partner ORDER is not demanded by D (the property speaks of the link
+       relation); it is the model's claim (build_perm_ordered) and compared by K; the API and clone routes yield
+       the same links (referred rows first).  Where the real code contradicts that, the difference is reported
+       under the signature of an OPEN known finding, and only when it is exactly the symptom proved for that
+       finding in Props/C03.lean: api-phrased-direction (phrased / reflexive associations), api-dangling-chained-key
+       (an identifying attribute that is itself referential reads None when the referred row's own reference is
+       dangling: the pairs `new` can find are computed by the oracle `_reads`), api-cardinality-rejected
+       (RelateException where the row would give a single-valued end a second partner); any other difference fails.
   K  (correspondence): the ordered dump of every variant (classes in metaclass order with their stored rows,
        associations in definition order with the ordered partner lists in both directions, or `error`) equals
        the answer of the Lean model `Pyx.Load.build` (hash join with the index cache, five phases); API and
@@ -574,32 +579,52 @@ def _schema_into(m, stmts):
             ass.formalize()
 
 
+class _Cyclic(Exception):
+    pass
+
+
+def _reads(stmts, raw, expected, pos, t, attr, seen=()):
+    """what `getattr(instance t, attr)` gives once the rows exist, by the statement alone: a referential attribute is
+    read through the link of the association formalised LAST that links the instance (first partner in storage
+    order), from the partner's corresponding identifying attribute; without any such link it reads None; any other
+    attribute reads the value the row was created with"""
+    if (t, attr) in seen:
+        raise _Cyclic()
+    kind = stmts[t]['kind']
+    using = [(bi, b) for bi, b in enumerate(stmts) if b['t'] == 'assoc' and b['sk'] == kind and attr in b['skeys']]
+    if not using:
+        return raw[t].get(attr)
+    for bi, b in reversed(using):
+        partners = sorted((t2 for (s2, t2) in expected[bi] if s2 == t), key=lambda i: pos[i])
+        if partners:
+            return _reads(stmts, raw, expected, pos, partners[0], dict(zip(b['skeys'], b['tkeys']))[attr],
+                          seen + ((t, attr),))
+    return None
+
+
 def _api_guard(stmts, raw, expected):
-    """the guards of the statement: None if they hold, else the reason the API route is not held to D"""
-    for ai, pairs in expected.items():
+    """None, or the reason the API route cannot be exercised at all"""
+    for ai in expected:
         a = stmts[ai]
         if not a['skeys'] or not a['tkeys']:
             return 'empty-keys'      # there is no referential value to create the row with
-        if 'M' not in a['scard']:
-            ts = [t for (_, t) in pairs]
-            if len(ts) != len(set(ts)):
-                return 'cardinality'
-        if 'M' not in a['tcard']:
-            ss = [s for (s, _) in pairs]
-            if len(ss) != len(set(ss)):
-                return 'cardinality'
-    # an identifying value that is itself referential can only be read through a link of its own
+    return None
+
+
+def _predicted(stmts, raw, expected, order):
+    """the pairs `new` can find: a referred row is found through its identifying attributes AS READ from the
+    instance (open finding api-dangling-chained-key: one that is itself referential reads None when the row's own
+    reference is dangling or null)"""
+    pos = dict((i, k) for k, i in enumerate(order))
+    out = {}
     for ai, pairs in expected.items():
         a = stmts[ai]
-        refs = _referential(stmts, a['tk'])
+        keep = set()
         for (s, t) in pairs:
-            for tk in a['tkeys']:
-                if tk in refs:
-                    ok = any(b['t'] == 'assoc' and b['sk'] == a['tk'] and tk in b['skeys'] and
-                             any(s2 == t for (s2, _) in expected[bi]) for bi, b in enumerate(stmts))
-                    if not ok:
-                        return 'unreadable-key'
-    return None
+            if all(_reads(stmts, raw, expected, pos, t, tk) == raw[t].get(tk) for tk in a['tkeys']):
+                keep.add((s, t))
+        out[ai] = keep
+    return out
 
 
 def _route_api(stmts, raw, order, clone_from=None):
@@ -640,30 +665,99 @@ def _api_links(stmts, order, dump):
     return out
 
 
-def _check_api(route, stmts, raw, order, dump, outcomes, expected, fail):
+def _phrased_symptom(a, stmts, f, b, want, bad_rows):
+    """is the difference on the phrased association `a` one of the symptoms PROVED for the open finding
+    (Props/C03.lean phrased_direction_reflexive / _unknown / phrased_witness_twin)?"""
+    alone = sum(1 for x in stmts if x['t'] == 'assoc' and x['rel'] == a['rel']) == 1
+    if not alone:
+        return True                                   # the link may land on the other association of the number
+    if f != b:
+        return False
+    if a['sk'] == a['tk']:
+        rev = set((t, s) for (s, t) in want)          # related the wrong way round
+        return f <= rev and all(s in bad_rows or t in bad_rows for (s, t) in rev - f)
+    # non-reflexive, different phrases: every relate raises UnknownLinkException, nothing is linked
+    return not f and all(s in bad_rows for (s, _) in want)
+
+
+def _check_api(route, stmts, raw, order, dump, outcomes, expected, fail, modelled):
+    """D for the API / clone route.  Differences that are exactly a symptom of an OPEN known finding are reported
+    under that finding's signature (KNOWN-FINDING); anything else is a failure."""
     links = _api_links(stmts, order, dump)
-    bad_rows = set(order[k] for k, o in enumerate(outcomes) if o != 'ok')
-    any_phrased = any(s['t'] == 'assoc' and _phrased(s) for s in stmts)
+    try:
+        pred = _predicted(stmts, raw, expected, order)
+    except _Cyclic:
+        return 'cyclic'
+    out_of = dict((order[k], str(o)) for k, o in enumerate(outcomes))
+    rel_rows = set(i for i, o in out_of.items() if o == 'RelateException')
+    unk_rows = set(i for i, o in out_of.items() if o == 'UnknownLinkException')
+    bad_rows = set(i for i, o in out_of.items() if o != 'ok')
+    phr_kinds = set()
+    for x in stmts:
+        if x['t'] == 'assoc' and _phrased(x):
+            phr_kinds.update((x['sk'], x['tk']))
+    findings = {}
+
+    def context():
+        return 'rows created in the order %s; outcomes %s; input:\n%s' % (order, [str(o) for o in outcomes], G.text_of(stmts))
+
+    def justified(s):
+        """RelateException is what `relate` must raise: the row would give a single-valued end a second partner"""
+        for ai, want in pred.items():
+            a = stmts[ai]
+            f = links[ai][0]
+            mine = [(s2, t) for (s2, t) in want if s2 == s]
+            if 'M' not in a['scard'] and any(t3 == t and s3 != s for (_, t) in mine for (s3, t3) in f):
+                return True
+            if 'M' not in a['tcard'] and len(set(t for (_, t) in mine)) > 1:
+                return True
+        return False
+
     for ai, (f, b) in sorted(links.items()):
         a = stmts[ai]
-        want = expected[ai]
+        want = pred[ai]
         if f == want and b == want:
             continue
-        diff = (f ^ want) | (b ^ want)
-        # the open finding: the association itself has different phrases / is reflexive, or the difference is the
-        # collateral of a new() that such an association aborted
-        collateral = any_phrased and bad_rows and all(s in bad_rows or t in bad_rows for (s, t) in diff)
-        sig = 'api-phrased-direction' if (_phrased(a) or collateral) else '%s-links-differ' % route
-        pair = sorted(diff)[0]
-        fail(sig, '%s route: %s links %s, loading the same rows links %s (first difference: %s / %s); rows created in the order %s; '
-             'outcomes %s; input:\n%s' % (route, a['rel'], sorted(f | b), sorted(want), _show(stmts, pair[0]), _show(stmts, pair[1]),
-                                          order, [str(o) for o in outcomes], G.text_of(stmts)))
-        return
-    if bad_rows:
-        phr = any_phrased
-        fail('api-phrased-direction' if phr else '%s-raises' % route,
-             '%s route: creating %s raised %s although the rows satisfy the cardinalities; input:\n%s'
-             % (route, _show(stmts, sorted(bad_rows)[0]), [str(o) for o in outcomes if o != 'ok'][0], G.text_of(stmts)))
+        first = sorted((f ^ want) | (b ^ want))[0]
+        what = '%s route: %s links %s, loading the same rows links %s (first difference: %s / %s); %s' % (
+            route, a['rel'], sorted(f | b), sorted(expected[ai]), _show(stmts, first[0]), _show(stmts, first[1]), context())
+        if _phrased(a):
+            if modelled and _phrased_symptom(a, stmts, f, b, want, bad_rows):
+                findings.setdefault('api-phrased-direction', what)
+                continue
+            fail('%s-links-differ' % route, what)
+            return None
+        if f != b or f - want:
+            fail('%s-links-differ' % route, what)
+            return None
+        for (s, t) in sorted(want - f):
+            if s in rel_rows and justified(s):
+                findings.setdefault('api-cardinality-rejected', what)
+            elif (s in bad_rows or t in bad_rows) and (stmts[s]['kind'] in phr_kinds or stmts[t]['kind'] in phr_kinds):
+                findings.setdefault('api-phrased-direction', what)      # a new() that a phrased association aborted
+            else:
+                fail('%s-links-differ' % route, what)
+                return None
+    for s in sorted(bad_rows):
+        kind = stmts[s]['kind']
+        what = '%s route: creating %s raised %s; %s' % (route, _show(stmts, s), out_of[s], context())
+        if s in rel_rows and justified(s):
+            findings.setdefault('api-cardinality-rejected', what)
+        elif kind in phr_kinds and modelled:
+            findings.setdefault('api-phrased-direction', what)
+        else:
+            fail('%s-raises' % route, what)
+            return None
+    if any(pred[ai] != expected[ai] for ai in expected) and 'api-phrased-direction' not in findings:
+        ai = [ai for ai in sorted(expected) if pred[ai] != expected[ai]][0]
+        s0, t0 = sorted(expected[ai] - pred[ai])[0]
+        findings.setdefault('api-dangling-chained-key',
+                            '%s route: %s does not link %s / %s, which loading the same rows links: an identifying attribute '
+                            'of the referred row is itself referential and its own reference is dangling or null, so it '
+                            'reads None; %s' % (route, stmts[ai]['rel'], _show(stmts, s0), _show(stmts, t0), context()))
+    for sig, what in sorted(findings.items()):
+        fail(sig, what)
+    return None
 
 
 # ----------------------------------------------------------------------------- run_impl
@@ -717,8 +811,9 @@ def run_impl(case):
             elif dump[0] == 'ok' and _same_insert_order(stmts, base_order, v['order']):
                 if [c[3] for c in sorted(dump[2])] != [c[3] for c in sorted(base_dump[2])] or \
                         sorted(map(repr, dump[3])) != sorted(map(repr, base_dump[3])):
-                    fail('instance-order', 'the permutation keeps the order of each class\'s INSERTs but instance / '
-                         'partner order differs; permuted input:\n%s' % G.text_of([stmts[i] for i in v['order']]))
+                    # more than the property says (it speaks of the link RELATION): not a D failure; the exact
+                    # order is the model's business (build_perm_ordered) and is compared by K on every variant
+                    stats['instance_order_differs'] = stats.get('instance_order_differs', 0) + 1
         seen_orders.append(v['order'])
         obs.append(dump if n == 0 else _digest(dump))
     api_obs = None
@@ -726,13 +821,13 @@ def run_impl(case):
             and all(G.class_of(stmts, stmts[i]['kind']) for i in ins_ids):
         order = _creation_order(stmts, expected)
         guard = _api_guard(stmts, raw, expected) if order is not None else 'cyclic'
-        stats['api_guard_%s' % (guard or 'holds')] = 1
         if order is None:
             order = ins_ids
         m2, outcomes = _route_api(stmts, raw, order)
         d2 = _dump(m2, None)
         if guard is None:
-            _check_api('api', stmts, raw, order, d2, outcomes, expected, fail)
+            guard = _check_api('api', stmts, raw, order, d2, outcomes, expected, fail, _api_modelled(case))
+        stats['api_guard_%s' % (guard or 'holds')] = 1
         # clone: load in the original order, clone every instance into an empty metamodel with the same schema
         m1, _ = _load(stmts, {'order': list(range(len(stmts))), 'parts': [len(stmts)], 'route': 'input'}, mine)
         ids = _ids_by_kind(stmts, range(len(stmts)))
@@ -743,7 +838,7 @@ def run_impl(case):
         m3, outcomes3 = _route_api(stmts, raw, order, clone_from=inst_of)
         d3 = _dump(m3, None)
         if guard is None and Sym('RecursionError') not in outcomes3:
-            _check_api('clone', stmts, raw, order, d3, outcomes3, expected, fail)
+            _check_api('clone', stmts, raw, order, d3, outcomes3, expected, fail, _api_modelled(case))
         api_obs = [[outcomes, d2[2], d2[3]], [outcomes3, d3[2], d3[3]]]
     nontrivial = any(0 < len(p) < _n_candidates(stmts, ai) for ai, p in expected.items())
     res = {'obs': [obs, api_obs if _api_modelled(case) and api_obs is not None else Sym('none')],
